@@ -1,7 +1,7 @@
 (* C03 — mask: exact residual signature after n positionals and named arguments. *)
 From Sigtools.Model Require Import Base Bind Roles Algebra.
 From Sigtools.Model Require Import Universe.
-From Sigtools.Proofs Require Import SmallModel Basics Deciders SweepDefs SweepDefs2 Bounded2 MaskLaws MaskExact SweepDefs3 Bounded3.
+From Sigtools.Proofs Require Import SmallModel Basics Deciders SweepDefs SweepDefs2 Bounded2 MaskLaws MaskExact SweepDefs3 Bounded3 MaskNamesLib MaskNames MaskAlgebra MaskNamesProps.
 
 Theorem C03_wf s n names0 h r : mask s n names0 h = Ok r -> validate (params r) = true.
 Proof. exact (mask_wf s n names0 h r). Qed.
@@ -84,3 +84,27 @@ Theorem C03_compose_U2 s n m :
   end.
 Proof. exact (mask_compose_U2 s n m). Qed.
 Print Assumptions C03_compose_U2.
+
+(* ---- masks WITH NAMES, all valid signatures (Proofs/MaskNames*.v, MaskAlgebra.v): exactness and the
+   raise condition, the one excluded case as a refutation (a consumed positional-only name), composition
+   as an equality of whole results, permutation invariance for all 16 hide-flag sets ---- *)
+Theorem C03_names_exact : forall (ps : list param) (n : nat) (names0 : list name), valid_sig ps = true -> NoDup names0 -> names_avoid_po ps names0 = true -> match mask (mk ps) n names0 nohide with | Ok r => forall c : call, disjointb (kws c) names0 = true -> noncolliding c (params r) [ps] = true -> accepts (params r) c = accepts ps (shift_call n names0 c) | Err e => e = ValueErr /\ (forall c : call, disjointb (kws c) names0 = true -> accepts ps (shift_call n names0 c) = false) end.
+Proof. exact @MaskNamesProps.C03_names_exact. Qed.
+Print Assumptions C03_names_exact.
+
+Theorem C03_mask_names_exact : forall (s : sigT) (n : nat) (names0 : list name), valid_sig (params s) = true -> NoDup names0 -> avoid_consumed_po (params s) n names0 = true -> match mask s n names0 nohide0 with | Ok r => forall c : call, disjointb (kws c) names0 = true -> noncolliding c (params r) [params s] = true -> accepts (params r) c = accepts (params s) (shift_call n names0 c) | Err e => e = ValueErr /\ (forall c : call, disjointb (kws c) names0 = true -> accepts (params s) (shift_call n names0 c) = false) end.
+Proof. exact @MaskNames.mask_names_exact. Qed.
+Print Assumptions C03_mask_names_exact.
+
+Theorem C03_mask_names_exact_refuted : exists (s : sigT) (n : nat) (names0 : list name) (c : call), valid_sig (params s) = true /\ NoDup names0 /\ disjointb (kws c) names0 = true /\ mask s n names0 nohide0 = Err ValueErr /\ accepts (params s) (shift_call n names0 c) = true.
+Proof. exact @MaskNames.mask_names_exact_refuted. Qed.
+Print Assumptions C03_mask_names_exact_refuted.
+
+Theorem C03_mask_compose : forall (s : sigT) (n m : nat), valid_sig (params s) = true -> match mask s n [] nohide0 with | Ok r => mask r m [] nohide0 = mask s (n + m) [] nohide0 | Err e => mask s (n + m) [] nohide0 = Err e end.
+Proof. exact @MaskAlgebra.mask_compose. Qed.
+Print Assumptions C03_mask_compose.
+
+Theorem C03_mask_perm : forall (s : sigT) (n : nat) (names names' : list name) (h : hideflags), valid_sig (params s) = true -> Permutation.Permutation names names' -> perm_rel (mask s n names h) (mask s n names' h).
+Proof. exact @MaskAlgebra.mask_perm. Qed.
+Print Assumptions C03_mask_perm.
+
